@@ -87,11 +87,12 @@ func (em *emitter) emitNodes(nodes []ast.Node) {
 				// checker and should be ignored by the emitter.
 				if node.Tree != nil {
 					inits := em.emitImport(node, true)
+					// The initialization functions are not called here, where
+					// the file is first imported: this code may be executed
+					// after other code that uses the file, or never. They are
+					// called when the template starts, see emitTemplate.
 					if len(inits) > 0 && !em.alreadyInitializedTemplatePkgs[node.Tree.Path] {
-						for _, initFunc := range inits {
-							index := em.fb.addFunction(initFunc)
-							em.fb.emitCallFunc(index, em.fb.currentStackShift(), nil)
-						}
+						em.templateInits = append(em.templateInits, inits...)
 						em.alreadyInitializedTemplatePkgs[node.Tree.Path] = true
 					}
 				}
